@@ -150,6 +150,21 @@ static Obs observe(SP& s, bool withIters)
       o.push_back({"d", vecD(d)});
    }
 
+   // certificates of infeasibility / unboundedness are part of the solution a copy must carry
+   if(s.hasPrimalRay())
+   {
+      VectorBase<double> ray(n);
+      bool ok = s.getPrimalRay(ray);
+      o.push_back({"ray", std::string(ok ? "1:" : "0:") + vecD(ray)});
+   }
+
+   if(s.hasDualFarkas())
+   {
+      VectorBase<double> far(m);
+      bool ok = s.getDualFarkas(far);
+      o.push_back({"farkas", std::string(ok ? "1:" : "0:") + vecD(far)});
+   }
+
    if(s.hasBasis())
    {
       std::vector<SPxSolverBase<double>::VarStatus> rs(m), cs(n);
